@@ -76,3 +76,60 @@ func VerifC16_Labels() {
 	inst.Reset()
 	zz.Assert("C16.labels.reset_clears_both", zz.GhostLen("prom.reset") == 2 && zz.GhostInt("prom.reset", 0, 0) != zz.GhostInt("prom.reset", 1, 0))
 }
+
+// VerifC16_SecondRunExportsItsOwnSamples: two consecutive runs on ONE metrics instance (the process-wide instance of
+// an embedding that executes twice): run 1 records an iteration outcome and a setup outcome; the next run starts with
+// Reset (as Run.Do does) and records its own outcomes, arbitrary and possibly the same label combination as run 1.
+// What the registry exports afterwards - observations made through children of the vectors' CURRENT generation; Reset
+// deletes a vector's children, a child kept from before is an orphan nothing collects - is exactly run 2's samples:
+// one iteration sample with run 2's result (when iteration metrics are enabled; none otherwise) and one setup sample
+// with run 2's setup outcome; nothing of run 1 remains and nothing of run 2 is lost in an orphan.
+//
+//verif:ghostlog 1
+//verif:noreplay Prometheus is replaced by the engine's abstract multiset
+func VerifC16_SecondRunExportsItsOwnSamples() {
+	enabled := zz.Bool("enabled")
+	inst := NewInstance(prometheus.NewRegistry(), enabled, map[string]string{"env": "x"})
+	results := []ResultType{SuccessResult, FailedResult, DroppedResult}
+	r1, r2 := results[zz.Choice("result1", 3)], results[zz.Choice("result2", 3)]
+	s1, s2 := zz.Bool("setupFailed1"), zz.Bool("setupFailed2")
+	// run 1
+	inst.Reset()
+	inst.RecordSetupResult("scn", Result(s1), 1)
+	inst.RecordIterationResult("scn", r1, 1)
+	inst.RecordIterationStage("scn", "stage-a", r1, 1)
+	// run 2
+	inst.Reset()
+	base := zz.GhostLen("prom.observe")
+	inst.RecordSetupResult("scn", Result(s2), 2)
+	inst.RecordIterationResult("scn", r2, 2)
+	live := zz.GhostLen("prom.observe") - base
+	zz.Cover("C16.second.reached")
+	zz.CoverIf("C16.second.same_labels_as_first_run", enabled && r1 == r2 && s1 == s2)
+	zz.Assert("C16.second.nothing_recorded_into_an_orphan", zz.GhostLen("prom.orphan") == 0)
+	want := 1
+	if enabled {
+		want = 2
+	}
+	zz.Assert("C16.second.exactly_its_own_samples", live == want)
+	if live != want {
+		return
+	}
+	wantSetup := "success"
+	if s2 {
+		wantSetup = "fail"
+	}
+	zz.Assert("C16.second.setup_sample_is_run_2s", zz.GhostStr("prom.observe", base, 2) == wantSetup)
+	if enabled {
+		zz.Assert("C16.second.iteration_sample_is_run_2s", zz.GhostStr("prom.observe", base+1, 3) == string(r2) && zz.GhostStr("prom.observe", base+1, 2) == IterationStage)
+	}
+	// and both vectors were reset between the runs
+	zz.Assert("C16.second.both_vectors_reset_between_runs", zz.GhostLen("prom.reset") == 4)
+}
+
+// VerifC01_SecondRunExportsItsOwnCounts: the harness above, registered under C01 for its "the exported iteration
+// metrics carry the same counts" clause across runs of one process.
+//
+//verif:ghostlog 1
+//verif:noreplay Prometheus is replaced by the engine's abstract multiset
+func VerifC01_SecondRunExportsItsOwnCounts() { VerifC16_SecondRunExportsItsOwnSamples() }
